@@ -3,6 +3,7 @@ package props
 import (
 	"fmt"
 	"go/token"
+	"go/types"
 	"os"
 	"strings"
 
@@ -18,7 +19,7 @@ var c19Packages = []string{
 	"vdr/resolver", "vdr/didnuts", "vdr/didnuts/didstore", "vdr/didweb", "vdr/didkey", "vdr/didjwk", "vdr/didx509",
 	"vcr/pe", "vcr/verifier", "vcr/credential", "vcr/credential/store", "vcr/revocation", "vcr/signature", "vcr/signature/proof", "vcr/issuer", "vcr/holder", "vcr/openid4vci", "vcr/api/openid4vci/v0", "vcr",
 	"crypto/dpop", "crypto", "crypto/jwx", "http/tokenV2", "discovery", "discovery/api/server", "discovery/api/server/client",
-	"auth/api/iam", "auth/client/iam", "auth/oauth", "auth/services/oauth", "auth/api/auth/v1", "jsonld", "policy",
+	"http/client", "auth/api/iam", "auth/client/iam", "auth/oauth", "auth/services/oauth", "auth/api/auth/v1", "jsonld", "policy",
 	// second ring: packages that see remote documents, tokens or peer data after a first parser has accepted them
 	// (the engine roots network, pki, vdr, http/user and auth/services/selfsigned are NOT in scope: their panic-capable sites are
 	// life-cycle invariants — fields set in Configure/Start — which these detectors cannot tell from input handling)
@@ -79,6 +80,7 @@ func c19(r *Report) {
 	r.Fuel(FuelSpec{ID: "C19.depth.service-references", Fn: p.Func("vdr/resolver", "DIDServiceResolver", "ResolveEx"), Depth: "depth",
 		Recursive: Fn("vdr/resolver", "DIDServiceResolver", "ResolveEx")})
 	c19DecodeFuel(r)
+	c19Termination(r)
 	// status lists do not recurse: a status list credential that itself carries a status is refused
 	r.Refuse(Refuse{ID: "C19.depth.statuslist-no-recursion", Fn: p.Func("vcr/revocation", "StatusList2021", "validate"),
 		Cond: CmpCheck("len(credentialStatus) > 0 / CredentialStatus != nil", token.EQL, FieldV("VerifiableCredential", "CredentialStatus"), NilV(), false)})
@@ -204,4 +206,175 @@ func c19DecodeFuel(r *Report) {
 		return out
 	}}})
 	r.OK(key, rule, p.Pos(fn.Pos()), fmt.Sprintf("%d continuation assignment(s), each behind a visited-set insertion", len(trueBlocks)), true)
+}
+
+// c19Termination: loops and matchers fed by remote responses that have no fuel of their own.
+func c19Termination(r *Report) {
+	p := r.P
+	const hc = "http/client"
+	// (1) the make-room loop of the HTTP response cache evicts only while there is an entry to evict (fix: a body of exactly
+	// maxbytes, or accounted bytes of entries that had dropped out of the list, kept `size+len >= max` true forever)
+	ins := p.Func(hc, "responseCache", "insert")
+	r.Gate(Gate{ID: "C19.term.cache-eviction-needs-an-entry", Fn: ins, Effect: CallEffect(Fn(hc, "responseCache", "pop")),
+		Check: CmpCheck("h.head == nil is false", token.EQL, FieldV("responseCache", "head"), NilV(), false),
+		Alt:   []Check{CmpCheck("pop() == nil is false", token.EQL, CallV(Fn(hc, "responseCache", "pop"), -1), NilV(), false)},
+		Note:  "pop() changes nothing when the list is empty: a loop that calls it with an empty list never ends"})
+	c19ListInsertLinks(r, ins)
+	// (2) every regexp2 (backtracking) regular expression gets a match timeout before it is used
+	c19Regexp2Timeout(r)
+}
+
+// c19ListInsertLinks: whenever insert overwrites a link cell (h.head or some x.next) with the new entry, the entry's own
+// next was set to the previous content of that same cell — otherwise the entries behind that cell drop out of the list
+// (they stay indexed and accounted but can neither expire nor be evicted). Writing the head of an empty list needs no link.
+func c19ListInsertLinks(r *Report, fn *ssa.Function) {
+	p := r.P
+	rule := "ORDER: a link cell (head / next) is overwritten with the new entry only after entry.next was set to the previous content of that cell (or the cell is known to be nil)"
+	key := "C19.term.cache-insert-keeps-the-list"
+	if fn == nil {
+		r.Lost(key, rule, "responseCache.insert not found")
+		return
+	}
+	key += " @ " + p.FuncName(fn)
+	isEntry := ParamV("entry")
+	isLink := func(a ssa.Value) bool {
+		fa, ok := a.(*ssa.FieldAddr)
+		if !ok {
+			return false
+		}
+		pt, ok := fa.Type().Underlying().(*types.Pointer)
+		if !ok {
+			return false
+		}
+		// a cell of type *cacheEntry
+		ep, ok := pt.Elem().Underlying().(*types.Pointer)
+		if !ok {
+			return false
+		}
+		n, ok := ep.Elem().(*types.Named)
+		return ok && n.Obj().Name() == "cacheEntry"
+	}
+	var stores, linkStores []*ssa.Store
+	for _, b := range fn.Blocks {
+		for _, in := range b.Instrs {
+			st, ok := in.(*ssa.Store)
+			if !ok || !isLink(st.Addr) {
+				continue
+			}
+			if fa := st.Addr.(*ssa.FieldAddr); isEntry.M(fa.X) {
+				linkStores = append(linkStores, st) // entry.next = …
+				continue
+			}
+			if isEntry.M(st.Val) {
+				stores = append(stores, st) // cell = entry
+			}
+		}
+	}
+	r.Sites += len(stores) + len(linkStores)
+	if len(stores) == 0 {
+		r.Lost(key, rule, "no store of the new entry into a link cell found")
+		return
+	}
+	for _, st := range stores {
+		ok := false
+		for _, ls := range linkStores {
+			if !InstrDominates(ls, st) {
+				continue
+			}
+			if ld, isLoad := ls.Val.(*ssa.UnOp); isLoad && ld.Op == token.MUL && SameExpr(ld.X, st.Addr, 4) {
+				ok = true
+			}
+		}
+		if !ok && FactHolds(st.Block(), token.EQL, VPat{Desc: "the cell", M: func(v ssa.Value) bool {
+			ld, isLoad := v.(*ssa.UnOp)
+			return isLoad && ld.Op == token.MUL && SameExpr(ld.X, st.Addr, 4)
+		}}, NilV()) {
+			ok = true
+		}
+		if !ok {
+			r.Bad(key, rule, p.Pos(st.Pos()), "the cell "+AccessPath(st.Addr, 0)+" is overwritten with the new entry, but entry.next was not set to the cell's previous content: the entries behind it drop out of the eviction list")
+			return
+		}
+	}
+	r.OK(key, rule, p.Pos(fn.Pos()), fmt.Sprintf("%d link-cell store(s), each preceded by entry.next = <that cell>", len(stores)), true)
+}
+
+// c19Regexp2Timeout: module-wide, every regexp2.Compile/MustCompile result has MatchTimeout stored before any other use.
+func c19Regexp2Timeout(r *Report) {
+	p := r.P
+	const re2 = "github.com/dlclark/regexp2"
+	rule := "ORDER: a regexp2 (backtracking) expression is used only after its MatchTimeout was set"
+	n := 0
+	for _, s := range p.CallSites(AnyOf(Fn(re2, "", "Compile"), Fn(re2, "", "MustCompile")), false) {
+		if p.FileClass(p.FuncPos(s.Fn)) != "prod" {
+			continue
+		}
+		n++
+		key := "C19.term.regexp2-match-timeout @ " + p.FuncName(s.Fn)
+		call, ok := s.Instr.(*ssa.Call)
+		if !ok {
+			r.Undecided(key, rule, p.Pos(s.Pos), "regexp2.Compile is not called directly (go/defer/method value)")
+			continue
+		}
+		// the *Regexp value(s): the call itself (MustCompile) or the extracted first component
+		var res []ssa.Value
+		if _, isTuple := call.Type().(*types.Tuple); isTuple {
+			for _, ref := range *call.Referrers() {
+				if ex, ok := ref.(*ssa.Extract); ok && ex.Index == 0 {
+					res = append(res, ex)
+				}
+			}
+		} else {
+			res = append(res, call)
+		}
+		var sets []ssa.Instruction
+		var uses []ssa.Instruction
+		for _, v := range res {
+			for _, ref := range *v.Referrers() {
+				if fa, ok := ref.(*ssa.FieldAddr); ok {
+					st := fa.X.Type().Underlying().(*types.Pointer).Elem().Underlying().(*types.Struct)
+					if st.Field(fa.Field).Name() == "MatchTimeout" {
+						for _, r2 := range *fa.Referrers() {
+							if store, ok := r2.(*ssa.Store); ok && store.Addr == ssa.Value(fa) {
+								sets = append(sets, store)
+							}
+						}
+						continue
+					}
+				}
+				if b, ok := ref.(*ssa.BinOp); ok && (IsNilConst(b.X) || IsNilConst(b.Y)) {
+					continue
+				}
+				if _, ok := ref.(*ssa.DebugRef); ok {
+					continue
+				}
+				uses = append(uses, ref)
+			}
+		}
+		bad := ""
+		for _, u := range uses {
+			dominated := false
+			for _, st := range sets {
+				if InstrDominates(st, u) {
+					dominated = true
+				}
+			}
+			if !dominated {
+				bad = p.Pos(u.Pos())
+				break
+			}
+		}
+		switch {
+		case len(sets) == 0:
+			r.Bad(key, rule, p.Pos(s.Pos), "MatchTimeout is never set on this expression: regexp2 backtracks without a time limit, a pattern from remote input can keep the matcher busy forever")
+		case bad != "":
+			r.Bad(key, rule, bad, "the expression is used on a path on which MatchTimeout has not been set")
+		default:
+			r.OK(key, rule, p.Pos(s.Pos), fmt.Sprintf("MatchTimeout set before all %d use(s)", len(uses)), true)
+		}
+	}
+	r.Sites += n
+	if n == 0 {
+		r.Lost("C19.term.regexp2-match-timeout", rule, "no regexp2.Compile call found in production code (expected >= 1)")
+	}
 }
